@@ -162,7 +162,7 @@ def json_classes(doc):
     return cls
 
 
-def _validate(path, via_command=False):
+def _validate(path, via_command=False, version=None):
     """(verdict, report).  verdict True only if the validator says valid;
     raising or exiting non-zero counts as not valid."""
     from biom.cli.table_validator import _validate_table, validate_table
@@ -172,7 +172,7 @@ def _validate(path, via_command=False):
             # the click command: verdict is the exit status and the last line
             try:
                 with contextlib.redirect_stdout(buf):
-                    validate_table.callback(path, None)
+                    validate_table.callback(path, version)
                 code = 0
             except SystemExit as e:
                 code = e.code
@@ -183,7 +183,8 @@ def _validate(path, via_command=False):
                                % (code, text[-200:])]
             return code == 0, text.splitlines()
         with contextlib.redirect_stdout(buf):
-            valid, report = _validate_table(path)
+            valid, report = _validate_table(path, version) \
+                if version is not None else _validate_table(path)
         return bool(valid), report
     except SystemExit:
         return False, ['exit']
@@ -478,9 +479,11 @@ def c15_validate(w, ev, slot):
             text = t.to_json('sim-validate', **kw)
             with open(path, 'w') as f:
                 f.write(text)
-        verdict, report = _validate(path, via_command=bool(a & 4))
+        # the version to validate against, left out or spelled out
+        verdict, report = _validate(path, via_command=bool(a & 4),
+                                    version=(None, '1.0.0')[(a >> 6) & 1])
         os.unlink(path)
-        w.case('c15.accept', 'json', slot)
+        w.case('c15.accept', 'json', slot, ver=(a >> 6) & 1)
         if not verdict:
             w.fail('c15.accept', 'validator rejects a JSON file written by '
                    'to_json: %s' % (report,))
@@ -495,8 +498,10 @@ def c15_validate(w, ev, slot):
                 t.to_hdf5(f, 'sim-validate', compress=bool(a & 2),
                           creation_date=datetime.datetime(
                               2020, 2, 3, 4, 5, 6, (a >> 2) % 2 * 123456))
-        verdict, report = _validate(path, via_command=bool(a & 4))
-        w.case('c15.accept', 'hdf5', slot)
+        verdict, report = _validate(
+            path, via_command=bool(a & 4),
+            version=(None, '2.1', '2.1.0')[(a >> 6) % 3])
+        w.case('c15.accept', 'hdf5', slot, ver=(a >> 6) % 3)
         if not verdict:
             os.unlink(path)
             w.fail('c15.accept', 'validator rejects an HDF5 file written by '
